@@ -18,10 +18,25 @@ import (
 // kind "cache": a Cache whose expiry wheel runs on a fake ticker and whose expiry jitter comes
 // from a scripted source (one scripted draw per call).
 
-type verifSrc struct{ next int64 }
+type verifSrc struct {
+	next, last int64
+	calls      int
+}
 
-func (s *verifSrc) Int63() int64 { return s.next }
-func (s *verifSrc) Seed(int64)   {}
+// Int63 returns the scripted draw; if the code under test keeps asking without a new draw having been
+// scripted (a rejection-sampling loop such as rand.Int63n would spin forever on a constant source), it
+// answers 0 after 2^20 identical calls in a row, which every such loop accepts.
+func (s *verifSrc) Int63() int64 {
+	if s.next != s.last {
+		s.last, s.calls = s.next, 0
+	}
+	s.calls++
+	if s.calls > 1<<20 {
+		return 0
+	}
+	return s.next
+}
+func (s *verifSrc) Seed(int64) {}
 
 type verifCacheCall struct {
 	// set | setx | get | del | take | tick, and bulks observed only at their end:
